@@ -1,7 +1,8 @@
 (** C19 — Observability data reaches the metrics endpoint unaltered.
     Only statements closed by [exact]; proofs live in Obs/*Lemmas.v. *)
 From Coq Require Import Ascii String.
-From SV Require Import Obs.MetricSpec Obs.ObsCases Obs.TableLemmas Obs.JsonLemmas.
+From SV Require Import Obs.MetricSpec Obs.ObsCases Obs.TableLemmas Obs.JsonLemmas Obs.PromLemmas.
+From SV Require Import Obs.TableToday.   (* today's defects; goes away with the F10/F11 fixes *)
 
 (** * The metric table translated from format.rs (regenerated on every run) *)
 
@@ -15,17 +16,6 @@ Proof. exact table_ok_except_known. Qed.
 Theorem C19_table_sources_classified : forall m src,
   In m metric_table -> In src (m_src m) -> src_unit src <> None.
 Proof. exact table_sources_classified. Qed.
-
-(** Today's table: the unrestricted statement is refuted by exactly these rows
-    (class 2 = F11, class 1 = F10). *)
-Theorem C19_table_refuted :
-  defective_rows =
-    [("offset_from_master", 2); ("mean_delay", 2); ("time_traceable", 1);
-     ("frequency_traceable", 1); ("ptp_timescale", 1); ("path_trace_enable", 1)]%string.
-Proof. exact table_all_rows_ok_refuted. Qed.
-
-Theorem C19_format_bool_refuted : bool_enc_true = 0 /\ bool_enc_false = 1.
-Proof. exact format_bool_refuted. Qed.
 
 (** * The JSON hop (observer.rs write_json -> exporter.rs read_json) *)
 
@@ -48,3 +38,68 @@ Theorem C19_json_roundtrip : forall s,
   wf_state s = true ->
   match parse (print (to_json s)) with Some v => of_json v | None => None end = Some s.
 Proof. exact json_roundtrip. Qed.
+
+(** * Prometheus exposition text and HTTP framing (format.rs) *)
+
+(** render_parses: for EVERY state and all float tokens that are tokens
+    (non-empty, no space, no newline - true of every f64 [Display]), the body
+    the model renders parses, line by line, to exactly the HELP / TYPE / UNIT
+    lines of the served families and one sample (name, labels with the escaping
+    undone, value token) per rendered measurement, closed by "# EOF". *)
+Theorem C19_render_parses : forall s ft b,
+  toks_ok ft = true -> body_of metric_table s ft = Some b ->
+  exists served, body_struct metric_table s ft = Some served
+                 /\ parse_expo b = Some (struct_elines served).
+Proof. exact render_parses. Qed.
+
+(** Label values survive the text format whatever characters they contain. *)
+Theorem C19_label_escaping : forall v rest,
+  parse_lval (escape_label v ++ dq :: rest) = Some (v, rest).
+Proof. exact parse_lval_escape. Qed.
+
+(** The response head parses and Content-Length is the decimal length of the
+    body, for EVERY body. *)
+Theorem C19_content_length_ok : forall b,
+  parse_http (http_of b) =
+    Some (mkHttp (s2c "HTTP/1.1 200 OK")
+                 [(s2c "content-type", s2c "text/plain");
+                  (s2c "content-length", print_int (Z.of_nat (length b)))] b).
+Proof. exact content_length_ok. Qed.
+
+(** Non-vacuity: a slave state with a Duration whose bits exceed 64 bits, a
+    path trace, a P2P port and an absent UTC offset is well formed, its tokens
+    are tokens, it renders, its JSON text round-trips, and today's table makes
+    the oracle reject the rendered response with exactly the findings F10 + F11
+    (mask 3). *)
+Example C19_nonvacuous :
+  wf_state ex_state = true /\ toks_ok ex_toks = true
+  /\ (match render ex_state ex_toks with
+      | Some r => match parse_http r with
+                  | Some h => match parse_expo (h_body h) with Some ls => (26 <=? length ls)%nat | None => false end
+                  | None => false end
+      | None => false end) = true
+  /\ match parse (print (to_json ex_state)) with Some v => of_json v | None => None end = Some ex_state.
+Proof. vm_compute. repeat split; reflexivity. Qed.
+
+(** * ---- TODAY'S CODE: refutations behind the known findings F10 / F11 ----
+    (delete this block and Obs/TableToday.v with the corresponding fix commits) *)
+
+(** Today's table: the unrestricted statement is refuted by exactly these rows
+    (class 2 = F11, class 1 = F10). *)
+Theorem C19_table_refuted :
+  defective_rows =
+    [("offset_from_master", 2); ("mean_delay", 2); ("time_traceable", 1);
+     ("frequency_traceable", 1); ("ptp_timescale", 1); ("path_trace_enable", 1)]%string.
+Proof. exact table_all_rows_ok_refuted. Qed.
+
+Theorem C19_format_bool_refuted : bool_enc_true = 0 /\ bool_enc_false = 1.
+Proof. exact format_bool_refuted. Qed.
+
+(** On today's table the oracle rejects the response rendered for [ex_state] with
+    exactly the findings F11 (code 2: offset_from_master, mean_delay) and F10
+    (code 1: the four booleans); -1 = sample accepted. *)
+Theorem C19_today_findings :
+  (match render ex_state ex_toks with
+   | Some r => response_findings ex_state (print (to_json ex_state)) r | None => [] end)
+  = [-1; -1; -1; -1; -1; -1; -1; -1; 2; 2; -1; -1; -1; -1; -1; -1; 1; 1; 1; -1; 1; -1; -1; -1; -1; -1].
+Proof. exact today_findings. Qed.
